@@ -150,7 +150,7 @@ def check_property(pid, tier='quick', seed=0, replay_only=None):
         scan_res.append(sr)
         oid = 'scan/' + sname
         obligations[oid] = {'props': [pid], 'kind': 'scan', 'fn': sname, 'text': sr['what'] + ' -- expected: no site'}
-        if sr['sites'] and SC.SCANS[sname].get('kind') == 'type_invariant':
+        if sr['sites'] and (SC.SCANS[sname].get('kind') == 'type_invariant' or SC.SCANS[sname].get('frame_only')):
             # the FRAME of a type invariant is lost (a new creating / mutating function that no unit verifies, a field made
             # visible): the invariant may still hold - that is for a contract on the new function to decide.  Never an alarm.
             lost[oid] = 'frame of the type invariant lost'
